@@ -55,6 +55,7 @@ def stepLine (st : DState) (line : String) : DState × String :=
   | [.list (.atom "alias" :: args)] =>
     let (a', m) := stepAlias st.alias args
     ({ st with alias := a' }, m ++ "\t-\t1")
+  | [.list (.atom "shared" :: _)] => (st, "-\t-\t1")
   | _ => (st, "bad-line\t-\t0")
 
 partial def loop (h : IO.FS.Stream) (out : IO.FS.Stream) (st : DState) : IO Unit := do
